@@ -887,6 +887,22 @@ func runC15(c *mon.Ctx) {
 			m4[uint16(cde)] = gid
 		}
 		f.InstallCMap(cmapFormat4(m4))
+		if k.Index%3 == 2 {
+			// a GDEF table that classifies some glyphs as marks: the kern table
+			// knows nothing about glyph classes, every pair applies (marks
+			// start from an advance of zero)
+			gc := classdef.Table{}
+			for gid := 1; gid < n; gid++ {
+				switch r.IntN(3) {
+				case 0:
+					gc[glyph.ID(gid)] = gdef.GlyphClassMark
+				case 1:
+					gc[glyph.ID(gid)] = gdef.GlyphClassBase
+				}
+			}
+			f.Gdef = &gdef.Table{GlyphClass: gc}
+			k.Class("kern:gdef-marks")
+		}
 		wb, ok := writeFont(k, f, "Write(F)")
 		if !ok {
 			return
@@ -925,12 +941,18 @@ func runC15(c *mon.Ctx) {
 				k.Skip("kern:accumulated-value-outside-int16")
 				return
 			}
-			want := int(g.GlyphWidth(p.Left)) + ref[p]
+			base := func(gid glyph.ID) float64 {
+				if g.Gdef != nil && g.Gdef.GlyphClass[gid] == gdef.GlyphClassMark {
+					return 0
+				}
+				return g.GlyphWidth(gid)
+			}
+			want := int(base(p.Left)) + ref[p]
 			if want > 32767 || want < -32768 {
 				k.Skip("kern:advance-outside-int16")
 				return
 			}
-			if len(out) != 2 || out[0].GID != p.Left || out[1].GID != p.Right || int(out[0].Advance) != want || float64(out[1].Advance) != g.GlyphWidth(p.Right) {
+			if len(out) != 2 || out[0].GID != p.Left || out[1].GID != p.Right || int(out[0].Advance) != want || float64(out[1].Advance) != base(p.Right) {
 				k.Fail("mismatch", "kern:pair-value", "pair (%d,%d): kern table gives %d, width %v; layout %s (kind=%s, %d subtables)", p.Left, p.Right, ref[p], g.GlyphWidth(p.Left), seqString(out), info.Kind, binary.BigEndian.Uint16(kt[2:]))
 			}
 		}
@@ -1063,7 +1085,7 @@ func runC15(c *mon.Ctx) {
 	req := []string{"select:exact-language", "select:non-matching-language,>=2-systems", "layout:gsub-effect", "layout:gpos-effect", "layout:no-rule-applies",
 		"kern:glyf", "kern:cff", "kern-subtable:accumulate", "kern-subtable:minimum", "kern-subtable:override", "kern-subtable:ignored", "kern-subtable:>10920-pairs",
 		"kern-first-subtable:minimum", "kern-first-subtable:override", "kern-first-subtable:minimum-raises-implicit-0", "kern-first-subtable:minimum-below-implicit-0",
-		"kern-value:int16-extreme", "kern-value:large", "kern:accumulation-leaves-int16", "kern:zero-for-a-pair-with-a-value:override", "kern:zero-for-a-pair-with-a-value:minimum",
+		"kern-value:int16-extreme", "kern-value:large", "kern:accumulation-leaves-int16", "kern:gdef-marks", "kern:zero-for-a-pair-with-a-value:override", "kern:zero-for-a-pair-with-a-value:minimum",
 		"select:lookup-index-out-of-range", "select:optional-feature-index-out-of-range", "select:required-feature-index-out-of-range", "layout:gdef-marks", "layout:history-compared", "layout:second-layouter-flipped-switches", "fixed-pitch=true", "fixed-pitch=false",
 		"features:all-off", "features:explicit", "features:nil-defaults", "layout:cmap=mac", "layout:cmap=12", "layout:cmap=4-glyph-array-with-delta", "layout:unmapped-neighbour-of-a-mapped-character", "layout:ligature-ignores-marks", "select:read-back,>=2-systems"}
 	for s := 0; s < 32; s++ {
